@@ -64,6 +64,15 @@ def main():
     import regex
     out["regex_VERSION1"] = int(regex.VERSION1)
     out["regex_IGNORECASE"] = int(regex.IGNORECASE)
+    try:
+        C = importlib.import_module("ctparse.ctparse")
+        voc = C._DEFAULT_SCORER._model.transformer.vocabulary
+        out["vocab_unigrams"] = sorted(k for k in voc if " " not in k)
+        out["vocab_size"] = len(voc)
+        out["default_scorer"] = type(C._DEFAULT_SCORER).__name__
+    except Exception as e:
+        out["vocab_unigrams"] = None
+        out["default_scorer"] = "error: %s" % e
     json.dump(out, sys.stdout)
 
 
